@@ -257,3 +257,53 @@ def reach_with_bool_phis(fn, removed_edges, rounds=8, evidence_calls=()):
         if not grew:
             break
     return reach_from(fn, 0, removed_edges=removed), removed
+
+
+_STD_DISCR = {"None": "0", "Some": "1", "Ok": "0", "Err": "1", "Continue": "0", "Break": "1"}
+
+
+def reach_with_variant_phis(fn, removed_edges, rounds=6):
+    """blocks reachable from the entry without `removed_edges`, to a fixpoint over refusals that travel as a value:
+    a switch on the discriminant of a local whose every definition builds a known variant of a two-variant std enum
+    (`Ok(())` on one path, `Err(..)` on the other - what a spliced-in checking helper leaves behind) loses the arms of
+    the variants all of whose definitions have become unreachable.  Returns the reachable set."""
+    from . import flow
+    removed = set(removed_edges)
+    reach = reach_from(fn, 0, removed_edges=removed)
+    for _ in range(rounds):
+        grew = False
+        for sb in sorted(reach):
+            t = fn.term(sb)
+            if t["k"] != "switch":
+                continue
+            cd = flow.cond_of(fn, sb)
+            if cd.kind != "discr" or cd.place is None or "p" in cd.place:
+                continue
+            l = cd.place["l"]
+            ds = flow.whole_defs(fn, l)
+            for _hop in range(3):
+                if len(ds) == 1 and ds[0].kind == "stmt" and ds[0].rv["k"] == "use":
+                    from .facts import op_place
+                    q = op_place(ds[0].rv["op"])
+                    if q is not None and "p" not in q:
+                        ds = flow.whole_defs(fn, q["l"])
+                        continue
+                break
+            if not ds or not all(d.kind == "stmt" and d.rv["k"] == "agg" and d.rv.get("variant") in _STD_DISCR for d in ds):
+                continue
+            live = {_STD_DISCR[d.rv["variant"]] for d in ds if d.bb in reach}
+            listed = set()
+            for v, x in t["arms"]:
+                listed.add(str(v))
+                if str(v) not in live and (sb, x) not in removed and not any(str(v2) in live and x2 == x for v2, x2 in t["arms"]):
+                    removed.add((sb, x))
+                    grew = True
+            rest = {"0", "1"} - listed
+            if not (rest & live) and (sb, t["otherwise"]) not in removed and not any(
+                    str(v2) in live and x2 == t["otherwise"] for v2, x2 in t["arms"]):
+                removed.add((sb, t["otherwise"]))
+                grew = True
+        if not grew:
+            break
+        reach = reach_from(fn, 0, removed_edges=removed)
+    return reach
